@@ -622,6 +622,17 @@ class PopulationBalanceModel:
         indAbove = self._netFlux[1:]*dt > psd
         self._netFlux[1:][indAbove] = psd[indAbove] / dt
 
+        #A bin can lose particles through both faces (dissolution through the lower face and growth through the upper face
+        #   when the critical radius lies inside the bin), so also limit the sum of the two so that the bin will not be negative
+        outLower = np.clip(-self._netFlux[:-1], 0, None)
+        outUpper = np.clip(self._netFlux[1:], 0, None)
+        outTotal = (outLower + outUpper)*dt
+        indBoth = outTotal > psd
+        scale = np.ones(len(psd))
+        scale[indBoth] = psd[indBoth] / outTotal[indBoth]
+        self._netFlux[:-1][outLower > 0] *= scale[outLower > 0]
+        self._netFlux[1:][outUpper > 0] *= scale[outUpper > 0]
+
         dXdt = (self._netFlux[:-1] - self._netFlux[1:])
 
         #Find size class for nucleated particles
